@@ -442,7 +442,8 @@ func AnalyzePool(p *load.Program, r *Roles, depth int) *UnitResult {
 	workerPoolFree := -1
 	if workerFn != nil {
 		switch {
-		case workerFn.Signature.Recv() != nil && recvName(workerFn.Signature.Recv().Type()) == "WorkerPool" && len(workerFn.Params) == 1:
+		case workerFn.Signature.Recv() != nil && recvName(workerFn.Signature.Recv().Type()) == "WorkerPool" && len(workerFn.Params) >= 1:
+			// (further parameters, e.g. a worker id, are left symbolic)
 			workerRecv = eng.Param(0, workerFn.Params[0].Name())
 		case workerFn.Signature.Recv() == nil && len(workerFn.Params) == 0:
 			for k, fv := range workerFn.FreeVars {
@@ -547,6 +548,8 @@ func AnalyzePool(p *load.Program, r *Roles, depth int) *UnitResult {
 				}
 			case "call":
 				switch {
+				case isPkgVarCall(ev):
+					// a package-level function variable (a trace / debug hook): not a task
 				case strings.HasPrefix(ev.Class, "dyn:") || strings.HasPrefix(ev.Class, "field:"):
 					chk(c, "C08.R2", con("task-call"), pending != nil && ev.FnTerm == pending, ev, "the worker calls "+ev.FnTerm.Pretty()+", which is not the task it just received (double execution or stale task)")
 					if okT != nil {
@@ -601,8 +604,8 @@ func AnalyzePool(p *load.Program, r *Roles, depth int) *UnitResult {
 				// the pool the started worker serves: the receiver, or what the closure captured
 				var served *eng.Term
 				switch {
-				case ev.Callee == workerFn && len(ev.Args) == 1 && workerPoolFree < 0:
-					served = ev.Args[0]
+				case ev.Callee == workerFn && len(ev.Args) >= 1 && workerPoolFree < 0:
+					served = ev.Args[0] // further arguments (a worker id) do not matter
 				case ev.Callee == workerFn && workerPoolFree >= 0 && ev.FnTerm != nil && ev.FnTerm.K == eng.KClosure && workerPoolFree < len(ev.FnTerm.A):
 					served = ev.FnTerm.A[workerPoolFree]
 					if m := c.Mem(served); m != nil && m.K != eng.KUnknown && m.K != eng.KLoad {
@@ -878,4 +881,10 @@ func isTaskChan(t types.Type) bool {
 	}
 	sig, ok := ch.Elem().Underlying().(*types.Signature)
 	return ok && sig.Params().Len() == 0 && sig.Results().Len() == 0
+}
+
+// isPkgVarCall: the call goes through a package-level function variable (an internal trace or
+// debug hook), not through a value a caller supplied.
+func isPkgVarCall(ev *eng.Event) bool {
+	return ev.Kind == "call" && ev.FnTerm != nil && ev.FnTerm.K == eng.KLoad && ev.FnTerm.A[0].K == eng.KGlobal
 }
